@@ -20,6 +20,7 @@ from . import util
 
 REPO = os.path.abspath(os.environ.get("JASM_VERIF_REPO", "/repo"))
 _BOOTED = False
+T_IMPORT = (0.0, 0.0)
 
 
 def bootstrap():
@@ -32,6 +33,8 @@ def bootstrap():
     if not os.path.isdir(os.path.join(src, "jasm")):
         raise RuntimeError(f"HARNESS-ERROR no jasm package under {src}")
     sys.path.insert(0, src)
+    global T_IMPORT
+    T_IMPORT = (time.monotonic(), time.time())  # what a clock read at import time of the package would have seen
     import jasm  # noqa: F401
     import jasm.main  # noqa: F401  (pulls in the whole package)
     import jasm.match  # noqa: F401
